@@ -333,8 +333,12 @@ func (s *fstream) release(how string) {
 	}
 	s.cmu.Unlock()
 	if first {
-		s.scope.real.Done() // what swarm.Stream does on Close/Reset
-		s.conn.removeStream(s)
+		if s.scope != nil {
+			s.scope.real.Done() // what swarm.Stream does on Close/Reset
+		}
+		if s.conn != nil {
+			s.conn.removeStream(s)
+		}
 	}
 }
 
@@ -358,13 +362,13 @@ func (s *fstream) Reset() error {
 
 func (s *fstream) ResetWithError(network.StreamErrorCode) error { return s.Reset() }
 
-func (s *fstream) ID() string                        { return s.id }
-func (s *fstream) Protocol() protocol.ID             { return s.proto }
-func (s *fstream) SetProtocol(id protocol.ID) error  { s.proto = id; return nil }
-func (s *fstream) Stat() network.Stats               { return network.Stats{Direction: s.dir, Limited: s.conn.limited} }
-func (s *fstream) Conn() network.Conn                { return s.conn }
-func (s *fstream) Scope() network.StreamScope        { return s.scope }
-func (s *fstream) String() string                    { return fmt.Sprintf("%s-stream %s", s.role, s.id) }
+func (s *fstream) ID() string                       { return s.id }
+func (s *fstream) Protocol() protocol.ID            { return s.proto }
+func (s *fstream) SetProtocol(id protocol.ID) error { s.proto = id; return nil }
+func (s *fstream) Stat() network.Stats              { return network.Stats{Direction: s.dir} }
+func (s *fstream) Conn() network.Conn               { return s.conn }
+func (s *fstream) Scope() network.StreamScope       { return s.scope }
+func (s *fstream) String() string                   { return fmt.Sprintf("%s-stream %s", s.role, s.id) }
 
 // fscope wraps the REAL stream scope of the real resource manager; only failures are injected.
 type fscope struct {
@@ -380,8 +384,8 @@ func (f *fscope) ReserveMemory(size int, prio uint8) error {
 	}
 	return f.real.ReserveMemory(size, prio)
 }
-func (f *fscope) ReleaseMemory(size int)    { f.real.ReleaseMemory(size) }
-func (f *fscope) Stat() network.ScopeStat   { return f.real.Stat() }
+func (f *fscope) ReleaseMemory(size int)                        { f.real.ReleaseMemory(size) }
+func (f *fscope) Stat() network.ScopeStat                       { return f.real.Stat() }
 func (f *fscope) BeginSpan() (network.ResourceScopeSpan, error) { return f.real.BeginSpan() }
 func (f *fscope) SetService(srv string) error {
 	if f.s.plan.step(f.s.role + ".SetService") {
